@@ -190,6 +190,10 @@ def motion_notify_rule(ctx, cg=None):
 
 
 def run(ctx):
+    from . import c17 as _c17s
+
+    # 'restoring an iteration ... the next matrices, solution and results are identical to those of a new simulation': the history protocol
+    ctx.attempt(_c17s.history_protocol_rule, ctx, 'R14.30')
     from . import e2e_rules as _e2e
 
     ctx.attempt(_e2e.dynamics_rule, ctx, 'R14.E2')
